@@ -696,10 +696,11 @@ func (ls *LanceroSource) launchLanceroReader() {
 					}
 					dev.card.ReleaseBytes(dropFromStart) // we could instead remember dropFromStart and add it
 					// to the later call to ReleaseBytes
-					dropFromEnd := dev.frameSize - dropFromStart
-					if dropFromEnd <= 0 {
-						fmt.Printf("firstWord %v, dropFromStart %v, dropFromEnd %v\n", firstWord, dropFromEnd, dropFromStart)
-						panic("expect dropFromEnd>0")
+					// Drop a whole number of frames in total. The first frame start can be more than one frame into b
+					// (when the lost bytes included a frame start), so take the remainder modulo the frame size.
+					dropFromEnd := (dev.frameSize - dropFromStart%dev.frameSize) % dev.frameSize
+					if len(b)-dropFromStart-dropFromEnd < dev.frameSize {
+						dropFromEnd = 0 // keep the whole frame that FindFrameBits has located
 					}
 					b = b[dropFromStart : len(b)-dropFromEnd]
 					fractionOfSampledPeriod := float64(dropFromEnd) / float64(dev.frameSize)
